@@ -1,33 +1,47 @@
-(* op on Model/Paths.v:  c19 <dialect> <v2019> <bcd-hex> <name-hex|->...
-   predicted entries created below the working directory by the default file handler at
-   SuccessQuit: the terminal directory and one file per stored name (resolved lexically). *)
+(* ops on Model/Paths.v + Model/Attach.v: what the default file handler creates below the working
+   directory when the connection ends.
+     c19 <dialect> <segment-hex>...                       a whole session through the upload model
+     c19abs <dialect> <v2019> <bcd-hex> <name-hex|->...   names only (the harness announces them plus "zz") *)
 open Drv_common
 open Prelude
 open Paths
 
 let cwd = [ [n_of_int 119] ]   (* "w" *)
 
+let fnv32 (l : BinNums.coq_N list) : int =
+  Stdlib.List.fold_left (fun h b -> ((h lxor (int_of_n b)) * 16777619) land 0xFFFFFFFF) 2166136261 l
+
+let hexs (s : string) =
+  if s = "" then "-" else
+  String.concat "" (Stdlib.List.map (fun c -> Printf.sprintf "%02x" (Char.code c)) (Stdlib.List.init (String.length s) (String.get s)))
+
+(* relative location of a written path, by the lexical resolution of the model *)
+let rel p =
+  let r = resolve cwd p in
+  if insideb cwd r then String.concat "/" (Stdlib.List.map string_of_chars (Stdlib.List.tl r))
+  else "OUTSIDE:" ^ String.concat "/" (Stdlib.List.map string_of_chars r)
+
+let show (phone : BinNums.coq_N list) (files : (BinNums.coq_N list * BinNums.coq_N list) list) : string =
+  let files = Stdlib.List.filter (fun (p, _) -> not (os_refuses p)) files in
+  let entries = (string_of_chars phone, None) ::
+                Stdlib.List.map (fun (p, body) -> (rel p, Some body)) files in
+  let entries = Stdlib.List.sort_uniq (fun (a, _) (b, _) -> compare a b) entries in
+  "ok created=" ^ String.concat "," (Stdlib.List.map (fun (s, b) ->
+     match b with
+     | None -> hexs s
+     | Some body -> Printf.sprintf "%s:%d/%08x" (hexs s) (Stdlib.List.length body) (fnv32 body)) entries)
+
 let init () =
   register "c19" (fun a -> match a with
+    | d :: segs ->
+      let ((_, _), s) = Attach.run (n_of_int (int_of_string d)) (Stdlib.List.map bytes_of_hex segs) in
+      (match Attach.on_quit_saves s with
+       | Some (phone, files) -> show phone files
+       | None -> "ok created=-")
+    | _ -> "bad-args");
+  register "c19abs" (fun a -> match a with
     | _ :: _ :: bcd :: names ->
       let phone = bcd2dec (bytes_of_hex bcd) in
-      let names = Stdlib.List.sort_uniq compare (Stdlib.List.map bytes_of_hex names) in
-      let paths = writes phone names in
-      let stored = Stdlib.List.filter (fun p ->
-          (* the name is what follows "./phone/" *)
-          true) paths in
-      let show p =
-        let r = resolve cwd p in
-        if insideb cwd r then
-          String.concat "/" (Stdlib.List.map string_of_chars (Stdlib.List.tl r))
-        else "OUTSIDE:" ^ String.concat "/" (Stdlib.List.map string_of_chars r) in
-      let refused p =
-        (* os_refuses on the name part: a NUL anywhere in the path is a NUL in the name (phone has none) *)
-        os_refuses p in
-      let files = Stdlib.List.filter (fun p -> not (refused p)) stored in
-      let entries = string_of_chars phone :: Stdlib.List.map show files in
-      let entries = Stdlib.List.sort compare entries in
-      "ok created=" ^ String.concat "," (Stdlib.List.map (fun s ->
-         if s = "" then "-" else
-         String.concat "" (Stdlib.List.map (fun c -> Printf.sprintf "%02x" (Char.code c)) (Stdlib.List.init (String.length s) (String.get s)))) entries)
+      let names = Stdlib.List.sort_uniq compare (Stdlib.List.map bytes_of_hex names @ [[n_of_int 122; n_of_int 122]]) in
+      show phone (Stdlib.List.map (fun p -> (p, [])) (writes phone names))
     | _ -> "bad-args")
